@@ -103,6 +103,73 @@ pub fn c16_string(s: &str, st: &mut Stats) -> Check {
     Ok(())
 }
 
+/// The text of `v` under formatter flags (width with every alignment and two fills, sign, alternate,
+/// zero padding); no precision, because truncation is what a precision asks for.
+/// Returns (spec, output, permitted fill characters).
+pub fn flagged_outputs<T: std::fmt::Display>(v: &T, widths: &[usize]) -> Vec<(String, String, &'static str)> {
+    let mut out = vec![];
+    for &w in widths {
+        out.push((format!("{{:>{}}}", w), format!("{:>w$}", v, w = w), " "));
+        out.push((format!("{{:<{}}}", w), format!("{:<w$}", v, w = w), " "));
+        out.push((format!("{{:^{}}}", w), format!("{:^w$}", v, w = w), " "));
+        out.push((format!("{{:{}}}", w), format!("{:w$}", v, w = w), " "));
+        out.push((format!("{{:*>{}}}", w), format!("{:*>w$}", v, w = w), "*"));
+        out.push((format!("{{:*<{}}}", w), format!("{:*<w$}", v, w = w), "*"));
+        out.push((format!("{{:*^{}}}", w), format!("{:*^w$}", v, w = w), "*"));
+        out.push((format!("{{:0{}}}", w), format!("{:0w$}", v, w = w), " 0"));
+        out.push((format!("{{:+#0{}}}", w), format!("{:+#0w$}", v, w = w), " 0"));
+    }
+    out.push(("{:+}".into(), format!("{:+}", v), ""));
+    out.push(("{:#}".into(), format!("{:#}", v), ""));
+    out.push(("{:+#}".into(), format!("{:+#}", v), ""));
+    out
+}
+
+/// True if `out` is `plain` with nothing but fill characters before and after it: formatter flags may
+/// pad the text as a whole (or be ignored), which leaves the text itself intact.
+pub fn is_padded_whole(out: &str, plain: &str, fills: &str) -> bool {
+    if out == plain {
+        return true;
+    }
+    let mut from = 0;
+    while let Some(pos) = out[from..].find(plain) {
+        let a = from + pos;
+        let (pre, post) = (&out[..a], &out[a + plain.len()..]);
+        for f in fills.chars() {
+            if pre.chars().all(|c| c == f) && post.chars().all(|c| c == f) {
+                return true;
+            }
+        }
+        from = a + 1;
+        while from < out.len() && !out.is_char_boundary(from) {
+            from += 1;
+        }
+        if from >= out.len() {
+            break;
+        }
+    }
+    false
+}
+
+/// C16 under formatter flags: the text printed with a width / alignment / sign / alternate flag is the
+/// plain text (possibly padded as a whole), or at least still parses back to the same value.
+fn c16_flagged<T: std::fmt::Display + PartialEq>(v: &T, plain: &str, what: &str, parse: impl Fn(&str) -> Option<T>, st: &mut Stats) -> Check {
+    let outs = guard(|| flagged_outputs(v, &[0, 1, 2, 3, 4, 6, 9])).map_err(|p| Fail::new("C16:print_panic", format!("{} {:?} under formatter flags: {}", what, plain, p)))?;
+    for (spec, out, fills) in outs {
+        st.eval();
+        if is_padded_whole(&out, plain, fills) {
+            if out != plain {
+                st.bump("flagged_output_padded_whole");
+            }
+            continue;
+        }
+        let back = guard(|| parse(&out)).map_err(|p| Fail::new("C16:parse_panic", format!("{:?}: {}", out, p)))?;
+        ensure!(back.as_ref() == Some(v), "C16:flagged_print", "{} {:?} printed with {} gives {:?}, which is neither the plain text (padded as a whole) nor parses back to the value", what, plain, spec, out);
+        st.bump("flagged_output_differs_but_parses_back");
+    }
+    Ok(())
+}
+
 /// Value round trips, exhaustive over all 263 actions / 64 squares / 6 pieces / 4 directions.
 pub fn c16_values(st: &mut Stats) -> Check {
     let dirs = [Direction::Up, Direction::Right, Direction::Down, Direction::Left];
@@ -126,6 +193,7 @@ pub fn c16_values(st: &mut Stats) -> Check {
         ensure!(matches!(&back, Ok(b) if b == a), "C16:action_round_trip", "{:?} parses back to {:?}", text, back.map(|b| b.to_string()));
         let dbg = format!("{:?}", a);
         ensure!(dbg == text, "C16:action_debug", "Debug form {:?} differs from Display {:?}", dbg, text);
+        c16_flagged(a, &text, "action", |t| Action::from_str(t).ok(), st)?;
         st.nontrivial(fp_str(&text));
     }
     for i in 0..64u8 {
@@ -146,6 +214,7 @@ pub fn c16_values(st: &mut Stats) -> Check {
         ensure!(Square::from_index(r.1 as u8) == q && Square::from_bit_board(r.2) == q, "C16:square_inverse", "conversions of {} are not mutually inverse", want);
         let single = guard(|| map_bit_board_to_squares(1u64 << i)).map_err(|p| Fail::new("C16:map_panic", p))?;
         ensure!(single == vec![q], "C16:map_single_bit", "map_bit_board_to_squares(1<<{}) = {:?}", i, single);
+        c16_flagged(&q, &want, "square", |t| Square::from_str(t).ok(), st)?;
     }
     for (k, p) in ENGINE_PIECES.iter().enumerate() {
         st.eval();
@@ -154,12 +223,14 @@ pub fn c16_values(st: &mut Stats) -> Check {
         ensure!(text == want, "C16:piece_print", "{:?} prints as {:?}", p, text);
         ensure!(Piece::from_str(&text).ok() == Some(*p), "C16:piece_round_trip", "{:?} does not parse back", text);
         ensure!(Piece::from_str(&text.to_uppercase()).ok() == Some(*p), "C16:piece_upper", "{:?} does not parse", text.to_uppercase());
+        c16_flagged(p, &text, "piece", |t| Piece::from_str(t).ok(), st)?;
     }
     for (k, d) in dirs.iter().enumerate() {
         st.eval();
         let text = d.to_string();
         ensure!(text == dchars[k].to_string(), "C16:direction_print", "{:?} prints as {:?}", d, text);
         ensure!(Direction::from_str(&text).ok() == Some(*d), "C16:direction_round_trip", "{:?} does not parse back", text);
+        c16_flagged(d, &text, "direction", |t| Direction::from_str(t).ok(), st)?;
     }
     Ok(())
 }
